@@ -308,7 +308,7 @@ func q(b []byte) string {
 }
 
 func runC16(r *hx.Result, cfg hx.Config) {
-	r.Rule = "in-package: command streams (RESP, telnet and native forms mixed, binary-safe arguments, values above the 64 KiB read buffer, occasional malformed frames) fed to PipelineReader.ReadMessages whole, at every 2-way cut (short streams), at random k-way cuts and byte-at-a-time, against the extracted model conn_run and against the whole-stream run; the tile38-level parser readNextCommand and the HTTP sniff on random/mutated packets. black-box: the same streams over real TCP segments (TCP_NODELAY, paced writes), reply byte streams compared between segmentations; malformed inputs (fixed crash corpus + mutations) each followed by a liveness check of the process and of a bystander connection; argument-level malformed stream: every command of core/commands.json and the undocumented ones as well-framed RESP arrays built from valid skeletons truncated at every position and mutated with hostile tokens (empty string, parentheses, huge/negative/non-numeric numbers, invalid UTF-8, JSON fragments, glob metacharacters, other keywords, 70 kB tokens), pipelined in batches of 120 with a bystander PING after each batch and exactly one reply required per command; mode-changing commands (FENCE searches, SUBSCRIBE, QUIT) on connections of their own; across the hand-over to live mode: streams with SUBSCRIBE / PSUBSCRIBE / a live NEARBY FENCE after OUTPUT switches and ordinary commands, followed by further commands (RESP and telnet framing, a malformed frame in some), sent over TCP whole, cut at every byte offset, byte-at-a-time and at random k-way cuts, reply bytes compared with the same stream sent one command per segment; a difference is accepted only as one of two open known findings when the model live_run with the pinned hand-over predicts exactly the commands that were left unhandled. non-trivial = distinct (stream, segmentation) with a cut strictly inside a command and at least two parsed commands."
+	r.Rule = "in-package: command streams (RESP, telnet and native forms mixed, binary-safe arguments, values above the 64 KiB read buffer, occasional malformed frames) fed to PipelineReader.ReadMessages whole, at every 2-way cut (short streams), at random k-way cuts and byte-at-a-time, against the extracted model conn_run and against the whole-stream run; the tile38-level parser readNextCommand and the HTTP sniff on random/mutated packets. black-box: the same streams over real TCP segments (TCP_NODELAY, paced writes), reply byte streams compared between segmentations; malformed inputs (fixed crash corpus + mutations) each followed by a liveness check of the process and of a bystander connection; argument-level malformed stream: every command of core/commands.json and the undocumented ones as well-framed RESP arrays built from valid skeletons truncated at every position and mutated with hostile tokens (empty string, parentheses, huge/negative/non-numeric numbers, invalid UTF-8, JSON fragments, glob metacharacters, other keywords, 70 kB tokens), pipelined in batches of 120 with a bystander PING after each batch and exactly one reply required per command; mode-changing commands (FENCE searches, SUBSCRIBE, QUIT) on connections of their own; across the hand-over to live mode: streams with SUBSCRIBE / PSUBSCRIBE / a live NEARBY FENCE after OUTPUT switches and ordinary commands, followed by further commands (RESP and telnet framing, a malformed frame in some), sent over TCP whole, cut at every byte offset, byte-at-a-time and at random k-way cuts, reply bytes compared with the same stream sent one command per segment; any difference is a failure (classified with the model live_run: the signature of the repaired defects C16-live-handover-drops-rest / C16-live-error-drops-read when the hand-over before the repair predicts exactly the missing commands, bb-live-segmentation-replies otherwise). non-trivial = distinct (stream, segmentation) with a cut strictly inside a command and at least two parsed commands."
 	r.Assumptions = []string{
 		"readNextHTTPCommand is not modelled: its stability under appended bytes is a hypothesis of c16_cmd_stable / c16_chunking_partial, exercised black-box (HTTP requests cut at every offset)",
 		"a network read delivers at most 0xFFFF bytes to one ReadMessages call (netServe's buffer size)",
